@@ -192,8 +192,7 @@ def _struct_unpack(I, fmt, data, offset, exact):
             pos += cnt
             continue
         if code == "s":
-            vals.append(I.slice_bytes(data, mkint(pos), mkint(pos + cnt)) if data.kind == "bytes" else
-                        VBytes(I.slice_bytes(data, mkint(pos), mkint(pos + cnt)).segs, "bytes"))
+            vals.append(VBytes(I.slice_bytes(data, pos, pos + cnt).segs, "bytes"))
             pos += cnt
             continue
         w = _STRUCT_SIZES[code]
@@ -1049,12 +1048,25 @@ def xml_call(I, fv, args, kw):
         if I.path.branch(found.term(), "xml_find"):
             return ext_obj(I, "xml_element", src=None)
         return NONE
+    if name == "get":
+        used(I, "Element.get(k[, d]): the attribute's string, or the default (None) when it is missing (uninterpreted predicate)")
+        has = B.opaque_bool(I, "xml_has_attr", [fv.self_val, args[0]])
+        if I.path.branch(has.term(), "xml_attr"):
+            return I.opaque_str("xml_attr", fv.self_val.ref, B.vkey(I, args[0]))
+        return args[1] if len(args) > 1 else kw.get("default", NONE)
     raise Unsupported(f"xml method {name}")
 
 
 def ipv4address(I, fv, args, kw):
     used(I, "ipaddress.IPv4Address(b): AddressValueError iff len(b) != 4")
     b = I.resolve(args[0])
+    if isinstance(b, (VInt, VBool)) and not isinstance(b, VBool):
+        # an integer address: the same address as its 4 bytes in network order; out of range -> AddressValueError
+        from .interp import PyRaise
+        try:
+            b = B.int_to_bytes(I, b, 4, "big")
+        except PyRaise:
+            I.raise_py("ipaddress.AddressValueError", "Address out of range")
     if not isinstance(b, VBytes):
         raise Unsupported("IPv4Address of a non-bytes value")
     n = b.length()
@@ -1188,7 +1200,9 @@ def task_call(I, fv, args, kw):
             o.meta["state"] = "cancelled"
         return mkbool(True)
     if name == "add_done_callback":
-        return NONE
+        # the callback runs at some later point of the schedule, outside the function under contract: its effect cannot be stated
+        # as a post-condition of this function, so a function registering one is outside the subset (undecided, never proved)
+        raise Unsupported("task.add_done_callback: effects of callbacks that run after the function returned are not modelled")
     raise Unsupported(f"task method {name}")
 
 
@@ -1227,12 +1241,12 @@ def http_call(I, fv, args, kw):
 
         def thunk():
             I.path.ghost.setdefault("events", {}).setdefault("http_" + name, []).append(VTuple(list(args) + [kw.get("headers", NONE), kw.get("content", NONE), kw.get("data", NONE)]))
-            k = I.path.choose(3, "http")
+            # one representative of every branch of httpx's exception tree below HTTPError that a request can raise
+            outcomes = [None, "httpx.ReadTimeout", "httpx.ConnectError", "httpx.RemoteProtocolError", "httpx.DecodingError", "httpx.TooManyRedirects"]
+            k = I.path.choose(len(outcomes), "http")
             env_step(I)
-            if k == 1:
-                I.raise_py("httpx.TimeoutException", "timeout")
-            if k == 2:
-                I.raise_py("httpx.TransportError", "connect error")
+            if outcomes[k] is not None:
+                I.raise_py(outcomes[k], "request failed")
             return ext_obj(I, "http_response")
         return VCoro(thunk)
     raise Unsupported(f"http client method {name}")
